@@ -381,6 +381,15 @@ class SFloat(Sym):
                     declare_var(str(r), r, math.floor(lo), math.ceil(hi))
             return SInt(r)
         r, robust, info = self._floor_int('int')
+        if not robust and getattr(c, 'nonrobust_int', None) == 'choose' and self.aff.bounds()[0] is not None and (self.zsafe or self.aff.bounds()[0] >= self.err):
+            # contract mode chosen by the driver: the truncation of a value within err of e is any integer between
+            # floor(e - err) and floor(e + err) (no robustness obligation; the caller's contract must tolerate it)
+            r2 = c.fresh('fli')
+            E = z3.RealVal(str(self.err))
+            c.assume(z3.And(z3.ToReal(r2) <= self.t + E, z3.ToReal(r2) + 1 > self.t - E, r2 >= 0))
+            lo, hi = self.aff.bounds()
+            declare_var(str(r2), r2, math.floor(lo - self.err), math.floor(hi + self.err))
+            return SInt(r2)
         self._robust_or_oblige(robust, info)
         # int() truncates toward zero: = floor for e >= 0
         lo, hi = self.aff.bounds()
@@ -600,6 +609,29 @@ class SFloat(Sym):
         from . import sstr as S
         c = ctx()
         c.assumptions.add('repr(float) is the shortest text that round-trips, positional iff 1e-4 <= |x| < 1e16 (CPython)')
+        if self.nearest and self.aff is not None and self.aff.is_const():
+            return repr(float(self.aff.c0))          # the double nearest to a known rational: CPython converts correctly rounded
+        if self.nearest and self.aff is not None and self.aff.all_int_vars() and self.mag < 10 ** 15:
+            # the double nearest to a short decimal N/10^p (p <= 6, < 16 significant digits): that decimal round-trips and no
+            # shorter text does, so repr is its canonical spelling: '%.pf' with trailing zeros dropped, one decimal kept
+            D, off = self.aff.lattice()
+            p = 0
+            while p <= 6 and (10 ** p) % D:
+                p += 1
+            lo, hi = self.aff.bounds()
+            if off == 0 and p <= 6 and lo is not None and lo >= 0:
+                if c.decide(z3.And(self.t > 0, self.t < z3.RealVal('1/10000'))):
+                    raise OutOfSubset('repr of a float below 1e-4 (exponent notation)')
+                t = self._sym_printf('', None, max(p, 1), 'f')
+                cells = list(S.cells_of(t))
+                dot = max(i for i, x in enumerate(cells) if isinstance(x, str) and x == '.')
+                while len(cells) - dot - 1 > 1 and bool(S.cell_is(cells[-1], '0')):
+                    cells.pop()
+                if len(cells) - dot - 1 > 1 or not isinstance(cells[-1], str):
+                    last = cells[-1]
+                    if len(cells) - dot - 1 > 1 and not isinstance(last, str):
+                        cells[-1] = S.narrow(last, last.cc.minus(S.CC.of('0')))
+                return S.mk(cells)
         if self.err != 0:
             raise OutOfSubset('repr of an inexactly known float')
         if c.decide(self.t == 0):
